@@ -758,13 +758,20 @@ func (e *ConditionalExpr) Value(ctx *hcl.EvalContext) (cty.Value, hcl.Diagnostic
 	}
 
 	if resultType == cty.NilType {
+		// The detailed description names object attributes, which come from
+		// evaluated object keys, so we only give it when neither result
+		// contains marked values.
+		mismatch := "At least one deeply-nested attribute or element is not compatible across both the 'true' and the 'false' value"
+		if !trueResult.ContainsMarked() && !falseResult.ContainsMarked() {
+			mismatch = describeConditionalTypeMismatch(trueResult.Type(), falseResult.Type())
+		}
 		return cty.DynamicVal, hcl.Diagnostics{
 			{
 				Severity: hcl.DiagError,
 				Summary:  "Inconsistent conditional result types",
 				Detail: fmt.Sprintf(
 					"The true and false result expressions must have consistent types. %s.",
-					describeConditionalTypeMismatch(trueResult.Type(), falseResult.Type()),
+					mismatch,
 				),
 				Subject:     hcl.RangeBetween(e.TrueResult.Range(), e.FalseResult.Range()).Ptr(),
 				Context:     &e.SrcRange,
